@@ -29,6 +29,14 @@ var importMap = map[string]string{
 	"sync":       "servitor/verifshim/simsync",
 	"os/exec":    "servitor/verifshim/simexec",
 	"golang.org/x/sync/singleflight": "servitor/verifshim/simflight",
+	// the response cache: its own lock becomes scheduler-visible, so that two cache operations of
+	// one goroutine can be separated by another goroutine's
+	"github.com/hashicorp/golang-lru/v2": "servitor/verifshim/simlru",
+	// the clock: real package on the bubble's virtual clock, except that two readings never
+	// return the same instant
+	"time": "servitor/verifshim/simtime",
+	// error numbers only
+	"syscall": "servitor/verifshim/simsyscall",
 }
 
 // imports that would let servitor reach I/O or scheduling around the seams
@@ -149,6 +157,9 @@ func prepare(repo, verifRoot string, race bool) (bin string, treeHash string, er
 	if err := installMain(scratch); err != nil {
 		return "", "", err
 	}
+	if err := installLRU(scratch); err != nil {
+		return "", "", err
+	}
 	// seam-integrity check + content hash
 	h := sha256.New()
 	var files []string
@@ -262,6 +273,9 @@ func rewriteGo(name string, src []byte) ([]byte, bool, error) {
 				base := p
 				if i := strings.LastIndex(p, "/"); i >= 0 {
 					base = p[i+1:]
+				}
+				if p == "github.com/hashicorp/golang-lru/v2" {
+					base = "lru" // the package name, not the last path element
 				}
 				im.Name = ast.NewIdent(base)
 			}
@@ -435,4 +449,36 @@ func installMain(scratch string) error {
 	}
 	door := "package verifmain\n\n// PrintRaw is main.go's printRaw: the function ui.State is given as its output callback.\nfunc PrintRaw(output string) { printRaw(output) }\n"
 	return os.WriteFile(filepath.Join(dir, "zz_verif_door.go"), []byte(door), 0o644)
+}
+
+// installLRU copies the real golang-lru/v2 top-level package (lru.go, 2q.go) into the scratch
+// module as servitor/verifshim/simlru with its "sync" redirected to simsync; its data structure
+// (package simplelru, no locking of its own) stays the module's.
+func installLRU(scratch string) error {
+	cmd := exec.Command(goTool, "list", "-m", "-f", "{{.Dir}}", "github.com/hashicorp/golang-lru/v2")
+	cmd.Dir = scratch
+	cmd.Env = goEnv()
+	out, err := cmd.Output()
+	if err != nil {
+		return infra("cannot locate golang-lru/v2 in the module cache: %v", err)
+	}
+	src := strings.TrimSpace(string(out))
+	dir := filepath.Join(scratch, "verifshim", "simlru")
+	if err := os.MkdirAll(dir, 0o755); err != nil {
+		return infra("mkdir: %v", err)
+	}
+	for _, name := range []string{"lru.go", "2q.go", "doc.go"} {
+		data, err := os.ReadFile(filepath.Join(src, name))
+		if err != nil {
+			return infra("read %s: %v", name, err)
+		}
+		rewritten, _, err := rewriteGo(name, data)
+		if err != nil {
+			return infra("rewrite golang-lru %s: %v", name, err)
+		}
+		if err := os.WriteFile(filepath.Join(dir, name), rewritten, 0o644); err != nil {
+			return infra("write: %v", err)
+		}
+	}
+	return nil
 }
